@@ -19,4 +19,32 @@ func (c *ConnectivityChecker) IsOnline() bool
   modifies *
 func (c *ConnectivityChecker) TriggerCheck()
   modifies *
+
+# ---- probing (C17: offline/online transitions) -----------------------------------
+# one probe: reports exactly what the check function said; on success (and
+# unless the checker is closed) the node is marked online BEFORE the online
+# callback runs
+func (c *ConnectivityChecker) probe() bool
+  props C17
+  ghostvar $ok bool = false
+  ghostvar $marked bool = false
+  modifies *
+  ensures [reports-the-check] result == $ok
+  ghost at call(checkFunc): $ok = $ret0
+  ghost at before call(Store): assert($ok && $arg0)
+  ghost at call(Store): $marked = true
+  ghost at before call(onOnline): assert($ok && $marked)
+
+# the probe loop ends only when a probe succeeded or the checker is closed; the
+# offline transition (state change + callback) happens at once when no delay is
+# configured, otherwise when the delay timer fires
+func (c *ConnectivityChecker) probeLoop(disconnected bool)
+  props C17 C14
+  ghostvar $succ bool = false
+  modifies *
+  ensures [ends-on-success-or-close] $succ || tagged("recv:c.done")
+  loop 0 invariant !$succ && delay <= maxBackoffDelay && delay >= initialBackoffDelay
+  ghost at call(probe): $succ = $ret0
+  ghost at before call(onOffline)#0: assert(disconnected && c.offlineDelay == 0)
+  ghost at before call(onOffline)#1: assert(tagged("recv:offlineC"))
 @*/
